@@ -3,7 +3,9 @@
 One *scenario* = a platform (constraint set, command list), a processor built remotely or converted
 from a local processor (circuit, heralds anywhere, ports, post-selection, noise, filter, input),
 then a sequence of public-API calls (setters, `prepare_job_payload`, `Sampler`, iterations, job
-creation, `execute_async`).  The real code runs against a fake RPC handler object (no network, no
+creation, `execute_async`) on that one long-lived processor — including changes of its circuit between
+two requests: a parameter value set in place (`P.set_value`), the circuit replaced through
+`RemoteProcessor.set_circuit` or `rp.experiment.set_circuit`, a component appended with `add`.  The real code runs against a fake RPC handler object (no network, no
 HTTP layer); every payload (returned by `prepare_job_payload` or received by `create_job`) is sent
 through JSON, deserialised with `perceval.serialization.deserialize` and compared
 
@@ -1619,8 +1621,9 @@ def load_corpus():
 def run(chk: core.Check):
     chk.rule = ("random sessions: platform (constraint set, command list) x processor (remote-built with add/set_circuit "
                 "and heralds, or local processor with circuit, catalog gates, heralds anywhere, ports, post-selection, "
-                "noise, filter, input converted by from_local_processor) x 3..N public calls (setters, "
-                "prepare_job_payload with kwargs, Sampler, iterations, job creation for 3 methods, execute_async with "
+                "noise, filter, input converted by from_local_processor) x 3..N public calls (setters, circuit "
+                "changes between requests of the same processor: P.set_value, set_circuit via processor or experiment, "
+                "add of a component; prepare_job_payload with kwargs, Sampler, iterations, job creation for 3 methods, execute_async with "
                 "positional/keyword arguments); distinct = distinct (start, heralds, constraints, commands, op "
                 "sequence) signatures; non-trivial = at least one payload was produced and compared")
     chk.assumptions = [
@@ -1633,6 +1636,9 @@ def run(chk: core.Check):
         "actually ran (not modelled)",
         "a job is executed at most once after a successful send (double execute_async is C17's finding)",
         "add_herald only on existing modes, at least one mode of interest kept; BasicState inputs only",
+        "the circuit the user means is recomputed from the scenario's specs with fresh objects (base circuit / local "
+        "processor, appended components, parameter values set so far), never read back from the processor under test; "
+        "add(k, component) only on herald-free modes of a processor without post-selection",
     ]
     chk.required_branches = ["convert", "convert-heralds", "convert-heralds-inside", "convert-heralds-input",
                              "remote-built", "remote-herald", "payload", "execute-sent", "filter-zero",
